@@ -16,12 +16,19 @@ Correspondence (every run, against the CURRENT tree of the repository):
  (3) compiled families: the same families printed as Go programs (two packages, local types, type switches,
      calls through interfaces, method values and method expressions with mutating receivers), built with the real
      compiler, run with node, and compared line by line with native `go run` (direct oracle); the Coq SPEC is
-     compared with native Go on the same probes (validation of the spec side).
+     compared with native Go on the same probes (validation of the spec side);
+ (4) deep families (phase 4): type terms of constructor depth 4-7 over all eight constructors with hostile struct tags
+     ('$', '\\', ',' and forged key fragments), exact copies, one-mutation near copies and sibling sets (chan-of-chan
+     directions, package / order / embedded bit of later struct fields), and embedding graphs of 9-14 structs (chain, fan,
+     dag, deep diamond), built with the REAL constructors and probed through the REAL $methodSet/$assertType, vs the Coq
+     model, the Coq SPEC and the Python transcription; the hypothesis [wfb] of the unbounded identity theorem is
+     evaluated in Coq on every generated term and compared with an independent Python check.
 """
 import json, os, re, sys
 import common as C
 import c09_fam as F
 import c09_prog as G
+import c09_deep as D
 
 ID = "C09"
 PROPS_FILE = "Props/C09.v"
@@ -33,8 +40,14 @@ RULE = ("families: <= 8 declared types in two packages (structs with value/point
         "declared types, their pointers, 3-8 composite types over them, unexported-field structs of both packages, tag variants, "
         "literal interfaces, duplicates; probes = every (dynamic type, interface) pair, identity of ~65 composite pairs, method "
         "sets with owners, 14 interface comparisons, in random order. non-trivial = the family has an embedded field and an "
-        "assertion that succeeds and one that fails; distinct by the whole family")
-TRUSTED = ["model of types.js/prelude.js written by hand (coq/Model/C09_Types.v), tied by this correspondence",
+        "assertion that succeeds and one that fails; distinct by the whole family. deep families: 6 (thorough 160) families of "
+        "14-18 type terms of depth 4-7 + copies + one-mutation copies + 2 sibling sets of 17 types each (~700 identity probes per "
+        "family; non-trivial = an identical and a non-identical pair of different universe positions), 8 (thorough 240) embedding "
+        "graphs of 9-14 structs with methods M/N/P on value/pointer receivers (method sets of 8 types + 24 assertions)")
+TRUSTED = ["the well-formedness hypothesis wfb of C09_canon_iff_identical (Model/C09_P4_Wf.v) describes what the compiler emits "
+           "(arities, identifiers and import paths without , $ \\, exported = ASCII upper-case initial, struct pkgPath \"\" iff no "
+           "unexported field as in compiler/utils.go); it is evaluated on every generated deep term, not derived from the compiler",
+           "model of types.js/prelude.js written by hand (coq/Model/C09_Types.v), tied by this correspondence",
            "harness/js/c09_driver.js emulates the compiler's emission order ($newType for all declarations, then per declaration "
            "component types, method signatures, .methods, .init, then $synthesizeMethods) - compiled families check the real order",
            "typ.methodSetCache is modelled as a pure memo (.methods are assigned before the first $methodSet call)",
@@ -42,14 +55,26 @@ TRUSTED = ["model of types.js/prelude.js written by hand (coq/Model/C09_Types.v)
            "Object.keys(base).sort() ordering of $methodSet is not modelled (unobservable: the interface's method order decides)",
            "native Go 1.23 as oracle for compiled families; Python transcription of Go's selector/identity rules for node families",
            "reflect metadata consumers and TypeAssertionError text beyond the missing-method name are not modelled"]
-ASSUMPTIONS = ["package paths and identifiers contain no ',' '$' (go command's import path rules)",
+ASSUMPTIONS = ["package paths and identifiers contain no ',' '$' '\\' (go command's import path rules; hypothesis wfb of the identity theorem; tags are arbitrary)",
+               "exported-ness of a field is determined by its name (ASCII upper-case initial) - non-ASCII upper-case identifiers are outside wfb",
                "embedded fields are type names or pointers to type names (no aliases of literals)",
                "values compared through interfaces are projected to trees of atoms (ints, pointer identities)"]
-TECHNIQUE = "Coq proof about an executable model with one boolean per defect class + differential correspondence (node driver on the real prelude, compiled programs vs native Go)"
+TECHNIQUE = ("Coq proof about an executable model with one boolean per defect class (identity: structural induction over arbitrary type "
+             "terms and canonicalisation sequences, hash-consing invariant + injectivity of the typeKey strings) + differential "
+             "correspondence (node driver on the real prelude incl. deep terms and large embedding graphs, compiled programs vs native Go)")
 LEVEL_TEXT = ("Machine-checked theorems over a model of the run-time type constructors (typeKey strings and caches), $methodSet, $assertType "
               "(memo tables as state) and interface equality; each known defect is refuted by a witness and the positive theorem is proved "
-              "for the repaired variant / outside the defect classes. The model is tied to the code on every run.")
-LEVEL_NOTE = ("Proof is about the hand-written model; the tie to the repository is differential. Dispatch (which method runs, copied or shared "
+              "for the repaired variant / outside the defect classes. The model is tied to the code on every run. "
+              "UNBOUNDED (phase 4): C09_canon_iff_identical - for every environment and every sequence of well-formed type terms of any "
+              "depth, two terms get the same run-time object iff identical by Go's rules (C09_canon_hashcons_invariant, "
+              "C09_typekey_injective for all eight constructors with arbitrary tags, C09_tag_escape_prefix_free, "
+              "C09_representative_unique, C09_canon_stable_later); $assertType memo soundness for every history. "
+              "STILL BOUNDED: $methodSet = Go's method set only over the 19683 four-struct families (larger graphs are compared on "
+              "every run, not proved).")
+LEVEL_NOTE = ("The unhypothesised C09_canon_full_statement is refuted only by junk terms (declaration index out of range: "
+              "C09_canon_full_statement_junk_refuted); the proved statement carries the computable hypothesis wfb. The BFS-with-seen "
+              "vs shallowest-unique-depth induction for arbitrary embedding graphs is not done. "
+              "Proof is about the hand-written model; the tie to the repository is differential. Dispatch (which method runs, copied or shared "
               "receiver) is checked on compiled programs against native Go, not proved.")
 
 FLAGS = ["emb", "pkg", "tag", "memo", "ambig", "field", "mpkg", "pshadow", "diamond", "ifdup"]
@@ -274,11 +299,13 @@ def attribute(unfixed, res, p):
 
 # ------------------------------------------------------------------ node families
 
-def node_families(ctx, cur):
-    r = ctx.rng("families")
-    n = 48 if ctx.quick else 800
-    fams = [F.gen_family(r) for _ in range(n)]
-    res = run_driver(ctx, fams, "families")
+def node_families(ctx, cur, fams=None, tag="node", covkey="node_family_distribution", nontriv=None):
+    if fams is None:
+        r = ctx.rng("families")
+        n = 48 if ctx.quick else 800
+        fams = [F.gen_family(r) for _ in range(n)]
+    n = len(fams)
+    res = run_driver(ctx, fams, "families-" + tag)
     vs, unfixed = variants_for(cur)
     cases, specs = [], []
     dist = dict(families=n, probes=0, asserts=0, assert_ok=0, idents=0, ident_true=0, msets=0, eqs=0, eq_panic=0,
@@ -296,18 +323,18 @@ def node_families(ctx, cur):
         cases.append(dict(fam=fam, variants=vs, obs=obs))
         emb = sum(1 for d in fam["decls"] if d["under"]["k"] == "struct" for f in d["under"]["fs"] if f["emb"])
         oks = [a[1] for a in obs if a[0] == "assert"]
-        ctx.count(fam, nontrivial=(emb > 0 and any(oks) and not all(oks)))
+        ctx.count(fam, nontrivial=(nontriv(fam, obs) if nontriv else (emb > 0 and any(oks) and not all(oks))))
         dist["probes"] += len(obs); dist["asserts"] += len(oks); dist["assert_ok"] += sum(oks)
         dist["idents"] += sum(1 for a in obs if a[0] == "ident"); dist["ident_true"] += sum(1 for a in obs if a[0] == "ident" and a[1])
         dist["msets"] += sum(1 for a in obs if a[0] == "mset"); dist["eqs"] += sum(1 for a in obs if a[0] == "eq")
         dist["eq_panic"] += sum(1 for a in obs if a[0] == "eq" and a[1] == "panic")
         dist["decls"] += len(fam["decls"]); dist["embedded_fields"] += emb
         dist["local_types"] += sum(1 for d in fam["decls"] if d.get("local")); dist["q_types"] += sum(1 for d in fam["decls"] if d["pkg"] == F.QPKG)
-    ctx.log("node families run: %d probes" % dist["probes"])
+    ctx.log("%s families run: %d probes" % (tag, dist["probes"]))
     vs1, _ = variants_for(cur, attribution=False)
     for c in cases:
         c["variants"] = vs1
-    ev = coq_eval(ctx, cases, "node")
+    ev = coq_eval(ctx, cases, tag, shard=(12 if tag == "node" else 3))
     mism = 0
     per_class = {}
     todo = []
@@ -345,7 +372,7 @@ def node_families(ctx, cur):
     # attribution (which class) for the first families with explained differences
     natt = 4 if ctx.quick else 40
     acases = [dict(fam=fams[k], variants=vs, obs=cases[k]["obs"]) for k in todo[:natt]]
-    aev = coq_eval(ctx, acases, "attr", shard=2) if acases else []
+    aev = coq_eval(ctx, acases, "attr" + tag, shard=2) if acases else []
     for k, e in zip(todo[:natt], aev):
         if e is None:
             continue
@@ -363,9 +390,99 @@ def node_families(ctx, cur):
     dist["families_attributed"] = len(acases)
     dist["model_mismatches"] = mism
     dist["differences_by_class"] = per_class
-    ctx.cov["node_family_distribution"] = dist
+    ctx.cov[covkey] = dist
     ctx.sample(dict(kind="family", decls=[dict(str=d["str"], under=d["under"], meths=[(m["name"], m["ptr"]) for m in d["meths"]]) for d in fams[0]["decls"]][:4],
                     probes=fams[0]["probes"][:5], impl=res[0][:5]))
+
+
+def coq_wf(ctx, fams, tag):
+    """evaluate Model/C09_P4_Wf.wf_univ (the hypothesis of C09_canon_iff_identical) on every family; None on failure"""
+    shards = [fams[i:i + 6] for i in range(0, len(fams), 6)]
+    texts = ["[" + ";\n".join(F.coq_family(dict(f, probes=[])) for f in sh_) + "]" for sh_ in shards]
+    STRDEFS = F.coq_strtab()
+
+    def run(k):
+        p = os.path.join(ctx.work, "wf_%s_%d.v" % (tag, k))
+        with open(p, "w") as f:
+            f.write("From Coq Require Import List NArith String.\nFrom Verif Require Import Model.C09_Types Corr.C09_Eval Model.C09_P4_Wf.\n"
+                    "Import ListNotations.\nLocal Open Scope N_scope.\n" + STRDEFS)
+            f.write("Definition fams : list family := %s.\n" % texts[k])
+            f.write("Definition M := Eval vm_compute in map wf_univ fams.\nPrint M.\n")
+        rc, out = C.coq_run(p)
+        m = re.search(r"M\s*=\s*(.*?)\s*:\s*list", out, re.S)
+        if rc != 0 or not m:
+            return None
+        try:
+            return json.loads(m.group(1).replace(";", ","))
+        except ValueError:
+            return None
+    out = []
+    for k, res in enumerate(C.parallel_map(run, range(len(shards)))):
+        out += res if res is not None and len(res) == len(shards[k]) else [None] * len(shards[k])
+    return out
+
+
+def add_siblings(r, fam):
+    """around two of the deep terms x of the family: every direction pair of chan(chan x), and multi-field structs over x that
+    differ only in the package of a NON-FIRST unexported field / the field order / the embedded bit of a later field;
+    all pairs inside each sibling set are probed for identity"""
+    U, probes = fam["univ"], fam["probes"]
+    nb = len(U)
+    for x in r.sample(range(nb), 2):
+        sibs = []
+        dirs = [(False, False), (True, False), (False, True)]
+        for di in dirs:
+            for do in dirs:
+                sibs.append(F.chan(F.chan(json.loads(json.dumps(U[x])), di[0], di[1]), do[0], do[1]))
+        cp = lambda: json.loads(json.dumps(U[x]))
+        for pkg in ("main", F.QPKG):
+            sibs.append(F.ptr(F.struct([F.field("A", cp()), F.field("b", F.basic(F.B_INT))], pkg)))
+            sibs.append(F.ptr(F.struct([F.field("b", F.basic(F.B_INT)), F.field("A", cp())], pkg)))
+            sibs.append(F.slice_(F.struct([F.field("A", cp(), tag="a$b"), F.field("L", F.named(0), emb=True), F.field("c", F.basic(F.B_INT), tag="\\")], pkg)))
+            sibs.append(F.slice_(F.struct([F.field("A", cp(), tag="a$b"), F.field("L", F.named(0), emb=False), F.field("c", F.basic(F.B_INT), tag="\\")], pkg)))
+        base = len(U)
+        U.extend(sibs)
+        probes.extend(["ident", base + i, base + j] for i in range(len(sibs)) for j in range(i, len(sibs)))
+    return fam
+
+
+def deep_families(ctx, cur):
+    """phase 4 tie: type terms of constructor depth 4-7 with hostile tags and one-mutation near copies (beyond the depth<=2
+    domain of the bounded theorem), and embedding graphs of 9-14 structs (beyond the four-struct families), built with the
+    REAL constructors, vs the Coq model, the Coq SPEC and the Python transcription of Go's rules; the hypothesis [wfb] of the
+    unbounded identity theorem is evaluated (Coq) on every generated term and compared with an independent Python check."""
+    r = ctx.rng("deep-terms")
+    nt = 6 if ctx.quick else 160
+    terms = [add_siblings(r, D.gen_deep_terms(r, quick=ctx.quick)) for _ in range(nt)]
+    r2 = ctx.rng("deep-graphs")
+    ng = 8 if ctx.quick else 240
+    graphs = [D.gen_graph(r2, quick=ctx.quick) for _ in range(ng)]
+    wf = coq_wf(ctx, terms + graphs, "deep")
+    nwf = 0
+    for fam, w in zip(terms + graphs, wf):
+        pw = D.py_wf(fam)
+        if w is None:
+            ctx.notes.append("Coq evaluation of wf_univ failed or timed out on a deep family (skipped)")
+            continue
+        nwf += sum(1 for x in w if x)
+        if w != pw or not all(w):
+            ctx.violation("wf-hypothesis-mismatch", "a generated type term is outside the well-formedness hypothesis of C09_canon_iff_identical, "
+                          "or the Coq predicate and the Python check disagree", dict(kind="family", family=fam, coq_wf=w, python_wf=pw), concrete=False)
+    depths = [D.max_depth(t) for f in terms for t in f["univ"]]
+    ctx.cov["deep_terms"] = dict(families=nt, terms=len(depths), max_depth=max(depths), min_depth=min(depths),
+                                 mean_depth=round(sum(depths) / float(len(depths)), 2), wf_true=nwf,
+                                 graph_families=ng, graph_sizes=sorted(set(len(g["decls"]) for g in graphs)),
+                                 graph_shapes=sorted(set(g.get("shape", "?") for g in graphs)))
+
+    def nt_terms(fam, obs):
+        ids = [a[1] for a, p in zip(obs, fam["probes"]) if a[0] == "ident" and p[1] != p[2]]
+        return any(ids) and not all(ids)
+    node_families(ctx, cur, fams=terms, tag="deept", covkey="deep_term_distribution", nontriv=nt_terms)
+
+    def nt_graph(fam, obs):
+        oks = [a[1] for a in obs if a[0] == "assert"]
+        return any(oks) and not all(oks)
+    node_families(ctx, cur, fams=graphs, tag="deepg", covkey="deep_graph_distribution", nontriv=nt_graph)
 
 
 def correspond(ctx):
@@ -374,6 +491,8 @@ def correspond(ctx):
     ctx.log("variant: " + " ".join("%s=%d" % (f, cur[f]) for f in FLAGS))
     node_families(ctx, cur)
     ctx.log("node families done")
+    deep_families(ctx, cur)
+    ctx.log("deep families done")
     G.witness_program(ctx, cur, SIG, WHAT)
     ctx.log("witness program done")
     G.compiled_families(ctx, cur, coq_eval, variants_for, attribute, SIG, WHAT)
